@@ -55,6 +55,18 @@ func genInject(seed uint64, n int, out string) {
 				o.Line("fixture", s.name, wire.Enc(f), fmt.Sprint(d))
 				c++
 			}
+			// non-default webhook configurations / admission variants on the default rendering
+			if !already {
+				mods := []string{"default+pd", "default+sel", "default+pd+sel", "default+path", "default+d", "default+path+d", "native+d", "network+path"}
+				for mi, m := range mods {
+					if !thorough && (fi+d+mi+int(seed))%len(mods) != 0 {
+						continue
+					}
+					o.Line("case", fmt.Sprint(c), "inject")
+					o.Line("fixture", m, wire.Enc(f), fmt.Sprint(d))
+					c++
+				}
+			}
 		}
 	}
 	for i := 0; i < n; i++ {
@@ -68,9 +80,22 @@ func genInject(seed uint64, n int, out string) {
 		if r.Chance(1, 2) {
 			s = wire.Pick(r, settings)
 		}
-		ns := wire.Pick(r, []string{"default", "default", "", "test-ns", "kube-system"})
-		if r.Chance(9, 10) {
-			ns = wire.Pick(r, []string{"default", "", "test-ns"})
+		if r.Chance(1, 8) {
+			s.name += "+pd"
+		}
+		if r.Chance(1, 4) {
+			s.name += "+sel"
+		}
+		if r.Chance(1, 8) {
+			s.name += "+path"
+		}
+		if r.Chance(1, 5) {
+			s.name += "+d"
+		}
+		// namespace of the admission request; the pod's own namespace is set separately (genPod)
+		ns := wire.Pick(r, []string{"default", "default", "", "test-ns", "istio-system"})
+		if r.Chance(1, 8) {
+			ns = wire.Pick(r, []string{"kube-system", "kube-public", "kube-node-lease", "local-path-storage", "kube-systemx"})
 		}
 		o.Line("case", fmt.Sprint(c), "inject")
 		o.Line("pod", s.name, wire.Enc(ns), wire.Enc(string(b)))
@@ -184,8 +209,15 @@ func genPod(r *wire.Rng) *corev1.Pod {
 		tr := true
 		pod.OwnerReferences = []metav1.OwnerReference{{APIVersion: "apps/v1", Kind: "ReplicaSet", Name: "hello-5d4f8", Controller: &tr}}
 	}
+	if r.Chance(1, 6) {
+		// the pod's own namespace wins over the namespace of the admission request
+		pod.Namespace = wire.Pick(r, []string{"default", "test-ns", "kube-system", "kube-public", "kube-node-lease", "local-path-storage"})
+	}
 	if r.Chance(3, 4) {
-		pod.Labels["app"] = wire.Pick(r, []string{"hello", "web"})
+		pod.Labels["app"] = wire.Pick(r, []string{"hello", "web", "db"})
+	}
+	if r.Chance(1, 10) {
+		pod.Labels["topology.istio.io/network"] = wire.Pick(r, []string{"n2", "network-a", "n1"})
 	}
 	if r.Chance(1, 2) {
 		pod.Labels["version"] = "v1"
@@ -363,7 +395,8 @@ func genPod(r *wire.Rng) *corev1.Pod {
 	}
 	if r.Chance(1, 12) {
 		ann["proxy.istio.io/config"] = wire.Pick(r, []string{`{"statusPort": 15025}`, `{"proxyMetadata":{"ENVOY_SECURE_MERGED_METRICS_PORT":"15091"}}`,
-			`{"proxyMetadata":{"VERIF_META":"x"}}`, `{"drainDuration":"10s","terminationDrainDuration":"7s"}`,
+			`{"proxyMetadata":{"VERIF_META":"x"}}`, `{"proxyMetadata":{"ISTIO_META_DNS_CAPTURE":"true"}}`,
+			`{"proxyMetadata":{"ISTIO_META_CLUSTER_ID":"other","PILOT_CERT_PROVIDER":"custom"}}`, `{"proxyMetadata":{"ISTIO_META_DNS_CAPTURE":"false","CA_ADDR":"ca.x:15012"}}`, `{"drainDuration":"10s","terminationDrainDuration":"7s"}`,
 			`{"tracing":{"zipkin":{"address":"zipkin.x:9411"}}}`, `{"image":{"imageType":"distroless"}}`})
 	}
 	if r.Chance(1, 15) {
@@ -401,11 +434,14 @@ func genPod(r *wire.Rng) *corev1.Pod {
 			pod.Spec.SecurityContext.RunAsUser = i64(1000)
 		}
 	}
-	if r.Chance(1, 10) {
-		pod.Spec.DNSPolicy = corev1.DNSDefault
+	if r.Chance(1, 6) {
+		pod.Spec.DNSPolicy = wire.Pick(r, []corev1.DNSPolicy{corev1.DNSDefault, corev1.DNSClusterFirst, corev1.DNSClusterFirstWithHostNet, corev1.DNSNone})
 	}
-	if r.Chance(1, 25) {
+	if r.Chance(1, 15) {
 		pod.Spec.HostNetwork = true
+		if r.Chance(1, 2) {
+			pod.Spec.DNSPolicy = corev1.DNSClusterFirstWithHostNet
+		}
 	}
 	if r.Chance(1, 8) {
 		pod.Spec.ImagePullSecrets = []corev1.LocalObjectReference{{Name: "regcred"}}
